@@ -5,15 +5,17 @@
 EXTENDS MC_Processor, Json
 
 CONSTANT GenDepth
-VARIABLE hist
+VARIABLES hist, done
 
-gvars == <<mcvars, hist>>
+gvars == <<mcvars, hist, done>>
 
 Rec(ev, a) == hist' = Append(hist, [ev |-> ev, a |-> a])
 
-GenInit == MCInit /\ hist = <<>>
+GenInit == MCInit /\ hist = <<>> /\ done = FALSE
 
-GenNext ==
+GenStep ==
+  /\ Len(hist) < GenDepth /\ UNCHANGED done
+  /\
     \/ \E S \in SetUniverse : cnt.upd < MaxUpd /\ SetUpdate(S) /\ Bump("upd") /\ Rec("SetUpdate", [set |-> S])
     \/ \E m \in MsgUniverse : cnt.loc < MaxLocal /\ LocalMessage(m) /\ Bump("loc") /\ Rec("LocalMessage", [m |-> m])
     \/ \E v \in InjectUniverse : cnt.loc < MaxLocal /\ Inject(v) /\ Bump("loc") /\ Rec("Inject", [v |-> v])
@@ -23,9 +25,10 @@ GenNext ==
     \/ \E w \in VaaUniverse : cnt.inb < MaxInbound /\ InboundVAA(w) /\ Bump("inb") /\ Rec("InboundVAA", [w |-> w])
     \/ \E k \in TimeSteps : DOMAIN agg # {} /\ Advance(k) /\ UNCHANGED cnt /\ Rec("Advance", [k |-> k])
     \/ \E L \in SUBSET LateSet : CleanupTick(L) /\ UNCHANGED cnt /\ Rec("CleanupTick", [x |-> 0])
+    \/ Faults /\ DOMAIN agg # {} /\ StoreDown /\ UNCHANGED cnt /\ Rec("StoreDown", [x |-> 0])
 
+\* One successor only, so that the behaviour is printed once (TLC's simulator evaluates every successor).
+GenFinish == Len(hist) = GenDepth /\ ~done /\ done' = TRUE /\ PrintT(<<"SCN", ToJson(hist)>>) /\ UNCHANGED <<mcvars, hist>>
+GenNext == GenStep \/ GenFinish
 GenSpec == GenInit /\ [][GenNext]_gvars
-
-Emit == (Len(hist) = GenDepth) => PrintT(<<"SCN", ToJson(hist)>>)
-Stop == Len(hist) <= GenDepth
 =============================================================================
